@@ -193,6 +193,11 @@ func updateHIDIConfiguration() error {
 			return nil
 		}
 		log.Info(fmt.Sprintf("File \"%s\" changed, replacing data...", path), logger.Debug)
+		// the changed file is replaced, not written into: it may share its data with a file of the user (a hard link made
+		// with cp -l, a symbolic link), which must stay as it is
+		if err := os.Remove(path); err != nil {
+			return fmt.Errorf("cannot remove changed \"%s\" file: %w", path, err)
+		}
 		dst, err := os.OpenFile(path, os.O_CREATE|os.O_WRONLY|os.O_TRUNC, 0o666)
 		if err != nil {
 			return fmt.Errorf("cannot open \"%s\" file: %w", path, err)
